@@ -238,8 +238,11 @@ bool Plan::EdgeFinished(Edge* edge, EdgeResult result, string* err) {
 
 bool Plan::NodeFinished(Node* node, string* err) {
   // See if we we want any edges from this node.
-  for (vector<Edge*>::const_iterator oe = node->out_edges().begin();
-       oe != node->out_edges().end(); ++oe) {
+  // Iterate over a copy: EdgeMaybeReady() may load dyndep files, which can
+  // add out edges to this very node and reallocate the vector.
+  const vector<Edge*> out_edges = node->out_edges();
+  for (vector<Edge*>::const_iterator oe = out_edges.begin();
+       oe != out_edges.end(); ++oe) {
     map<Edge*, Want>::iterator want_e = want_.find(*oe);
     if (want_e == want_.end())
       continue;
